@@ -154,6 +154,34 @@ let () =
       end
     | _ -> failwith "rw")
 
+(* ---------------- C18 ---------------- *)
+let () =
+  reg "cdset" (fun a -> match a with
+    | [ty; mode; x; r; p; s_; dims] ->
+      let ty = z_of_hex ty in
+      let old = if mode = "-" then [] else err_words (z_of_hex mode) (z_of_hex x) (z_of_hex r) (z_of_hex p) (z_of_hex s_) in
+      let d = Array.of_list (zlist_of_string dims) in
+      let g i = if i < Array.length d then d.(i) else Z0 in
+      let cd = set_local ty old (g 0) (g 1) (g 2) (g 3) (g 4) in
+      let ((dim, dty), t) = decode_cd cd in
+      let ((((r5, r4), r3), r2), r1) = t in
+      let we = with_err cd in
+      let base = Printf.sprintf "%scd=%s we=%d dim=%s ty=%s r=%s,%s,%s,%s,%s"
+          (if old = [] then "" else "err=" ^ sl old ^ " ") (sl cd) (if we then 1 else 0) (hz dim) (hz dty) (hz r5) (hz r4) (hz r3) (hz r2) (hz r1) in
+      if we then begin
+        let (m, (((da, dr), dp), dsn)) = decode_err cd in
+        base ^ Printf.sprintf " mode=%s dbl=%s,%s,%s,%s" (hz m) (hz da) (hz dr) (hz dp) (hz dsn)
+      end else base
+    | _ -> failwith "cdset");
+  reg "cdcopy" (fun a -> match a with
+    | [ty; dims] ->
+      let (r5, r4, r3, r2, r1) = dims5 dims in
+      let cd = copymeta_cd (z_of_hex ty) r5 r4 r3 r2 r1 in
+      let ((dim, dty), t) = decode_cd cd in
+      let ((((q5, q4), q3), q2), q1) = t in
+      Printf.sprintf "cd=%s dim=%s ty=%s r=%s,%s,%s,%s,%s" (sl cd) (hz dim) (hz dty) (hz q5) (hz q4) (hz q3) (hz q2) (hz q1)
+    | _ -> failwith "cdcopy")
+
 let () =
   (try
     while true do
